@@ -25,9 +25,12 @@ _fresh = itertools.count()
 SIDE = None
 
 
+FP_RAISE = [0]     # > 0 inside `with np.errstate(divide/invalid/all="raise")`: every division / log is evaluated eagerly and must be defined
+
+
 def side(kind, what, why=""):
     if SIDE is not None:
-        SIDE.add(kind, what, why)
+        SIDE.add(kind, what, ("[fp-raise] " + why) if FP_RAISE[0] and kind in ("pos", "nonzero") else why)
 
 
 class SideLog:
@@ -1665,7 +1668,8 @@ class EvalEnv:
         self.syms = dict(syms or {})
         self.funcs = dict(funcs or {})
         self.default = default  # callable(kind, name, args) for unknowns
-        self.special = {"minv": _eval_matfun, "chol_lower": _eval_matfun, "chol_upper": _eval_matfun}
+        self.special = {"minv": _eval_matfun, "chol_lower": _eval_matfun, "chol_upper": _eval_matfun,
+                        "trunc": lambda a, env, bvs: float(math.trunc(evalf(a.args[1], env, bvs)))}
 
 
 _bvidx_cache = {}
